@@ -695,9 +695,65 @@ func gen(t *rapid.T, binar bool) (Case, string, bool) {
 	return c, cl, nt
 }
 
+// YUVRect: the planar-YUV constructor takes its crop rectangle as arguments: a rectangle with a
+// negative origin or reaching outside the data is an error, any other (non-empty) one gives the view.
+type YUVRect struct {
+	DW, DH, L, T, W, H int
+	Reverse            bool
+}
+
+func checkYUVRect(raw json.RawMessage) error {
+	var c YUVRect
+	if err := json.Unmarshal(raw, &c); err != nil {
+		return fmt.Errorf("hx: %v", err)
+	}
+	if c.DW < 1 || c.DH < 1 || c.W < 1 || c.H < 1 {
+		return fmt.Errorf("hx: empty")
+	}
+	data := make([]byte, c.DW*c.DH+c.DW*c.DH/2+4)
+	for i := range data {
+		data[i] = byte(i*37 + 11)
+	}
+	valid := c.L >= 0 && c.T >= 0 && c.L+c.W <= c.DW && c.T+c.H <= c.DH
+	orig := append([]byte(nil), data...) // the constructor mirrors the rows of the caller's array in place
+	src, err := gozxing.NewPlanarYUVLuminanceSource(data, c.DW, c.DH, c.L, c.T, c.W, c.H, c.Reverse)
+	desc := fmt.Sprintf("NewPlanarYUVLuminanceSource(data %dx%d, left %d, top %d, %dx%d, reverse %v)", c.DW, c.DH, c.L, c.T, c.W, c.H, c.Reverse)
+	if !valid {
+		if err == nil {
+			return fmt.Errorf("%s: rectangle outside the data accepted", desc)
+		}
+		return nil
+	}
+	if err != nil {
+		return fmt.Errorf("%s: in-range rectangle rejected: %v", desc, err)
+	}
+	if src.GetWidth() != c.W || src.GetHeight() != c.H {
+		return fmt.Errorf("%s: view is %dx%d", desc, src.GetWidth(), src.GetHeight())
+	}
+	mat := src.GetMatrix()
+	for y := 0; y < c.H; y++ {
+		row, err := src.GetRow(y, nil)
+		if err != nil || len(row) < c.W {
+			return fmt.Errorf("%s: GetRow(%d): %v", desc, y, err)
+		}
+		for x := 0; x < c.W; x++ {
+			sx := c.L + x
+			if c.Reverse {
+				sx = c.L + c.W - 1 - x
+			}
+			want := orig[(c.T+y)*c.DW+sx]
+			if row[x] != want || mat[y*c.W+x] != want {
+				return fmt.Errorf("%s: pixel (%d,%d) row=%d matrix=%d, data has %d", desc, x, y, row[x], mat[y*c.W+x], want)
+			}
+		}
+	}
+	return nil
+}
+
 func TestCheck(t *testing.T) {
 	hx.Main(t, "C17", func(c *hx.Ctx) {
 		c.Register("views", check)
+		c.Register("yuvrect", checkYUVRect)
 	}, func(c *hx.Ctx) {
 		run := func(sub string, n int, binar bool) {
 			c.Rapid(sub, n, func(t *rapid.T) {
@@ -708,6 +764,37 @@ func TestCheck(t *testing.T) {
 					t.Fatalf("%v", err)
 				}
 			})
+		}
+		// every crop rectangle around small planar-YUV data, in range or not
+		{
+			idx := 0
+			for _, d := range [][2]int{{1, 1}, {3, 2}, {4, 5}, {6, 6}} {
+				dw, dh := d[0], d[1]
+				for l := -2; l <= dw+1; l++ {
+					for tp := -2; tp <= dh+1; tp++ {
+						for w := 1; w <= dw+2; w++ {
+							for h := 1; h <= dh+2; h++ {
+								idx++
+								if !c.Mine(idx) {
+									continue
+								}
+								cs := YUVRect{DW: dw, DH: dh, L: l, T: tp, W: w, H: h, Reverse: idx%3 == 0}
+								cl := "in_range"
+								if l < 0 || tp < 0 {
+									cl = "negative_origin"
+								} else if l+w > dw || tp+h > dh {
+									cl = "reaches_outside"
+								}
+								c.Note("yuv_constructor_rectangles", cl, cl != "in_range", hx.HashS("yuv", fmt.Sprint(cs)), func() any { return cs })
+								if !c.Enum("yuv_constructor_rectangles", "yuvrect", cs, nil) {
+									break
+								}
+							}
+						}
+					}
+				}
+			}
+			c.SetExhaustive("yuv_constructor_rectangles", true)
 		}
 		run("view_ops_vs_model", c.N(2500, 80000), false)
 		run("bilevel_binarisation", c.N(1200, 40000), true)
